@@ -265,7 +265,7 @@ type inliner struct {
 	cont     *ast.IfStmt
 	lhsObjs  []types.Object
 	contSync string
-	fail        string
+	fail     string
 }
 
 func (r *inliner) failf(format string, a ...any) {
